@@ -10,7 +10,7 @@ REPO = os.environ.get('VERIF_REPO', '/repo')
 REPO_SRC = os.path.join(REPO, 'src')
 SCRATCH_BASE = os.environ.get('VERIF_SCRATCH', '/var/tmp')
 OUT_DIR = os.path.join(VERIF_DIR, 'out')
-EVIDENCE_DIR = os.path.join(VERIF_DIR, 'evidence')
+EVIDENCE_DIR = os.environ.get('VERIF_EVIDENCE_DIR', os.path.join(VERIF_DIR, 'evidence'))
 KNOWN_FINDINGS_FILE = os.environ.get('VERIF_KNOWN_FILE', os.path.join(VERIF_DIR, 'known_findings.json'))
 
 EXIT_HELD = 0
